@@ -92,7 +92,7 @@ def detect(d, props):
     finally:
         sh("git -C /repo checkout -- .")
         # evidence written while a mutant was applied is not evidence about the unchanged tree: restore the committed files
-        sh("git -C /verif checkout -- evidence")
+        sh("git -C /verif checkout -- evidence lean/IppModel/Generated/Source.lean")
     return 0
 
 
